@@ -12,10 +12,10 @@ BUDGET = {'quick': (3000, 80.0), 'thorough': (250000, 1500.0)}
 RULE = ('one real stack (either data link layer, 1-2 CAs, in half the runs with its own transfers in flight) is fed a generated sequence of '
         '1..60 frames from a protocol-aware alphabet (TP.CM/TP.DT, FD.TP.CM/FD.TP.DT, multi-PG; every control byte incl. undefined, sessions 0..15, '
         'boundary/random size, packet and sequence fields, data lengths 0..8 / 0..64, local/foreign/global destinations, ordinary/own/254/255 sources, '
-        'duplicates, coherent session fragments) with gaps from 0 to beyond each timeout; then liveness, timer cadence, release of all sessions and a '
+        'duplicates, coherent session fragments) with gaps from 0 to beyond each timeout, plus reactive frames (abort, CTS, hold, acknowledge for the stack\'s own sessions) processed from inside the stack\'s own k-th transmission; then liveness, timer cadence, release of all sessions and a '
         'well-formed transfer in each direction with the reference peer are checked. non-trivial = at least one injected frame was processed past '
         'the destination filter (it changed a table, caused a transmission, a delivery or an exception); distinct = distinct scenario JSON')
-REQUIRED_PROBES = ['frames_fed', 'frames_effective', 'notify_exceptions', 'sessions_opened', 'own_transfer_runs', 'followup_ok']
+REQUIRED_PROBES = ['frames_fed', 'frames_effective', 'notify_exceptions', 'sessions_opened', 'own_transfer_runs', 'followup_ok', 'reactive_frames']
 P_ADDR, Q_ADDR, FOREIGN = 0x42, 0x43, 0x99
 PROBE_PERIOD = 0.010
 GAPS_US = [0, 0, 0, 100, 1000, 1000, 190_000, 210_000, 490_000, 510_000, 740_000, 760_000, 1_040_000, 1_060_000, 1_240_000, 1_260_000, 2_990_000, 3_010_000]
@@ -169,6 +169,30 @@ def generate(rng, tier, i):
                         'ps': 0xCA if bam else rng.choice([P_ADDR, P_ADDR, Q_ADDR]),
                         'len': (rng.choice([61, 150, 400]) if fd else rng.choice([9, 20, 60, 200])), 'fill': rng.randrange(1 << 16)})
     scn['own'] = own
+    # reactive frames: put on the bus from inside the stack's own k-th transmission, i.e. the peer's answer is processed
+    # before the stack's send call has returned (interleaved with its own transmissions)
+    react = []
+    if own and rng.random() < 0.6:
+        for _ in range(rng.randint(1, 3)):
+            m = rng.choice(own)
+            if m['pf'] == 0xFE:
+                continue
+            peer, sa = m['ps'], local[m['ca']]
+            pgn = 0xD000
+            kind = rng.choice(['abort', 'abort', 'cts', 'hold', 'eoma', 'cts_far'])
+            if not fd:
+                data = {'abort': rc.tp_abort(rng.choice([1, 2, 3]), pgn), 'cts': rc.tp_cts(rng.choice([1, 2, 255]), rng.choice([1, 2, 3]), pgn),
+                        'hold': rc.tp_cts(0, 255, pgn), 'eoma': rc.tp_eoma(m['len'], rc.npackets21(m['len']), pgn),
+                        'cts_far': rc.tp_cts(5, 255, pgn)}[kind]
+                pf = rc.PF_TP_CM
+            else:
+                sess = rng.choice([0, 0, 1])
+                data = {'abort': rc.fd_abort(sess, rng.choice([1, 2, 3]), pgn), 'cts': rc.fd_cts(sess, rng.choice([1, 2, 3]), rng.choice([1, 2, 255]), pgn),
+                        'hold': rc.fd_cts(sess, 1, 0, pgn), 'eoma': rc.fd_eoma(sess, m['len'], rc.nsegments22(m['len']), pgn),
+                        'cts_far': rc.fd_cts(sess, 0x5C4000, 5, pgn)}[kind]
+                pf = rc.PF_FD_TP_CM
+            react.append({'on_tx': rng.randrange(0, 8), 'id': rc.make_id(7, 0, pf, sa, peer), 'd': _hex(data)})
+    scn['react'] = react
     return scn
 
 
@@ -187,6 +211,20 @@ def execute(scn, keep_log=False, hook=None):
     st.ecu.add_timer(PROBE_PERIOD, lambda cookie: (fires.append(sim.now), True)[1])
     sim.run_for(0.05)
     feeder = bus.port('X')          # hostile source: frames are injected on the bus from here
+    txn = [0]
+    reactive_on = [True]
+    stats['reactive_frames'] = 0
+
+    def on_stack_tx(fr):
+        if fr.src != 'S' or not reactive_on[0]:
+            return
+        k = txn[0]
+        txn[0] += 1
+        for r in scn.get('react', []):
+            if r['on_tx'] == k:
+                stats['reactive_frames'] += 1
+                bus.send_sync('X', r['id'], True, bytes.fromhex(r['d']), fd)
+    bus.observers.append(on_stack_tx)
     base = sim.now
     for m in scn.get('own', []):
         def own_send(m=m):
@@ -225,6 +263,7 @@ def execute(scn, keep_log=False, hook=None):
     stats['notify_exceptions'] = len(st.notify_excs)
     # ---- after the longest timeout everything opened by that traffic must be released
     sim.run_for(3.0 + 0.3)
+    reactive_on[0] = False      # the hostile phase (incl. the time-outs it causes) is over
     stats['hostile_deliveries'] = len(w.deliveries)
     stats['stack_tx_frames'] = sum(1 for fr in bus.frames if fr.src == 'S')
     tv = common.thread_violations(w)
@@ -293,6 +332,7 @@ def features(scn, v):
 def shrink(scn):
     yield from gen.drop_each(scn, 'frames', 1)
     yield from gen.drop_each(scn, 'own', 0)
+    yield from gen.drop_each(scn, 'react', 0)
     k = scn.get('kernel') or {}
     if k.get('lmax_ns') != 5000 or k.get('read_cost_ns') != 1000:
         c = copy.deepcopy(scn)
